@@ -11,6 +11,7 @@ def plan(tier, seed):
     kmax = 9 if tier == "quick" else 10
     for k in range(1, kmax + 1):
         qs.append(Q("code-k%d" % k, "c19.c", {("H_CODE" if k <= 10 else "H_CODE_ENUM"): None, "K": k}, group="c19-code" if k <= 10 else "c19-code-enum", timeout=900, mem_gb=12, backend="cadical", cbmc_flags=() if k <= 10 else ("--max-field-sensitivity-array-size", str(1 << k))))
+    qs.append(Q("allcodes", "c19.c", {"H_ALLCODES": None}, group="c19-allcodes", checks="safety", leak=True, replace_calls={"m4ri_build_code": "stub_build_code"}, timeout=600))
     qs.append(Q("parity64", "c19.c", {"H_PARITY": None}, backend="z3", fallback="cadical", timeout=300))
     qs.append(Q("masks", "c19.c", {"H_MASKS": None}, checks="safety"))
     qs.append(Q("swapbits", "c19.c", {"H_SWAPBITS": None}, backend="z3"))
